@@ -299,3 +299,7 @@ PROPS["C09"]["shards"] = lambda tier, seed, search=False: _c09(tier, seed, searc
     Shard(sh.family, sh.args, driver=sh.driver, binary=sh.binary, race_props=[]) for sh in conc_shards(tier, seed, search)[:3]]
 PROPS["C09"]["race"] = True
 PROPS["C09"]["rule"] = PROPS["C09"]["rule"] + "; plus the concurrent family (a conditional get naming V never receives version V, whatever the schedule)"
+
+_c18 = PROPS["C18"]["shards"]
+PROPS["C18"]["shards"] = lambda tier, seed, search=False: _c18(tier, seed, search) + store_shards(tier, seed, search)[:2]
+PROPS["C18"]["rule"] = PROPS["C18"]["rule"] + "; (iii) the sequential store family: slices returned by handles are kept and must never change afterwards; every cache document is read back by the model's reader"
